@@ -27,10 +27,15 @@
    op 8  real loopback sockets (TCPNetworkClient.recv_packet / iter_received_packets, StreamEndpoint over real TLS):
          input  L [A 8; A N; A bufsize; A ncalls; tmo T (inf or 0); stream spec (B | L [A seed; A len]); ...]
          output L [L [A 0; digest packet] | L [A code] ...]
+   op 9  lock discipline of TCPNetworkClient / UDPNetworkClient under real threads (IO/ClientLocks.v)
+         input  L [A 9; L labels; A kind (0 TCP client: ConnectionError -> ECONNABORTED, 1 UDP client); ...]   label = L [A 0; A k; A method (0 send_packet, 1 recv_packet, 2 is_closed); tmo T]
+                                                 | L [A 1; A k] grant | L [A 2; A k] give up | L [A 3; A k; A ok] finish
+         output L [L enabled; L [L [A k; L [A 0; A code] done | L [A 1] in its body | L [A 2] waiting for a lock] ...];
+                   A send_lock_free; A recv_lock_free]
    op 7  AsyncClientRecvIterator: iter_received_packets(timeout=T) on the asyncio backend, one __anext__ per arrival
          input  L [A 7; tmo T; L [A d (packet after d ticks, 0 = buffered) | A (-1) (connection error) ...]]
          output L [L [A code; A dt] ...]                                                                      *)
-From EN Require Import Lib.Bytes Lib.Sx IO.Retry IO.RetryEnv IO.SendAll IO.SendMsg IO.Budget IO.Payload Gen.ParamsC11.
+From EN Require Import Lib.Bytes Lib.Sx IO.Retry IO.RetryEnv IO.SendAll IO.SendMsg IO.Budget IO.Payload IO.ClientLocks Gen.ParamsC11.
 Open Scope Z_scope.
 
 Definition as_tmo (x : sx) : option tmo := as_opt as_Z x.
@@ -104,8 +109,12 @@ Definition of_rvout (o : rvout) : sx :=
   | RvFuel => L [A 9]
   end.
 
+(* locks at the end of a call: send lock free, receive lock free (IO/ClientLocks.v: every lock acquired is released
+   when the call ends), waits on the OTHER lock (none: a receive never touches the send lock and vice versa) *)
+Definition locks_after : sx := L [A 1; A 1; L []].
+
 Definition of_call (r : rvres) (lw : list tmo) : sx :=
-  L [of_rvout (rv_out r); L (map of_wait (rv_waits r)); A (rv_dt r); L (map of_tmo lw)].
+  L [of_rvout (rv_out r); L (map of_wait (rv_waits r)); A (rv_dt r); L (map of_tmo lw); locks_after].
 
 Definition recv_fuel (s : list recvans) : nat :=
   length s + fold_right (fun a n => match a with RData b _ => length b + n | _ => n end)%nat 0%nat s + 2.
@@ -130,7 +139,7 @@ Definition as_call (x : sx) : option (tmo * option lockans) :=
   end.
 
 Definition of_itstep (s : itstep) : sx :=
-  L [of_rvout (it_out s); L (map of_wait (it_waits s)); A (it_dt s); L (map of_tmo (it_lockwaits s))].
+  L [of_rvout (it_out s); L (map of_wait (it_waits s)); A (it_dt s); L (map of_tmo (it_lockwaits s)); locks_after].
 
 (* ---- datagram (op 4, 5): one _retry *)
 Definition dgram_recv (s : list recvans) : cbres bytes * list recvans * Z :=
@@ -145,16 +154,16 @@ Definition run_dgram_recv (ri T : tmo) (lk : option lockans) (s : list recvans) 
   let F := (length s + length sels + 2)%nat in
   let k := match lk with Some l => lock_with_timeout T l | None => mk_lkres (Some T) 0 0 [] end in
   match lk_T k with
-  | None => L [L [A (lk_exc k)]; L []; A (lk_dt k); L (map of_tmo (lk_waits k))]
+  | None => L [L [A (lk_exc k)]; L []; A (lk_dt k); L (map of_tmo (lk_waits k)); locks_after]
   | Some T1 =>
       let r := retry dgram_recv F ri T1 s sels in
       let o := match rr_out r with ROk p _ => L [A 0; B p] | RTimeout => L [A E_TIMEOUT] | RRaise c => L [A c] | RFuel => L [A 9] end in
-      L [o; L (map of_wait (rr_waits r)); A (lk_dt k + rr_dt r); L (map of_tmo (lk_waits k))]
+      L [o; L (map of_wait (rr_waits r)); A (lk_dt k + rr_dt r); L (map of_tmo (lk_waits k)); locks_after]
   end.
 
 Definition of_csres (r : sres) (lw : list tmo) : sx :=
   L [A (match sr_out r with SOk => 0 | SExc c => c | SFuel => 9 end); B (sk_wire (sr_sock r));
-     L (map of_wait (sr_waits r)); A (sr_dt r); L (map of_tmo lw)].
+     L (map of_wait (sr_waits r)); A (sr_dt r); L (map of_tmo lw); locks_after].
 
 (* datagram send: socket.send(data) accepts the whole datagram or raises *)
 Definition dgram_send (data : bytes) (s : sock) : cbres unit * sock * Z :=
@@ -223,6 +232,29 @@ Definition run (i : sx) : sx :=
                           | RFuel => (9, L [])
                           end in
       L [A code; ret; L (map of_wait (rr_waits r)); A (rr_dt r)]
+  | L (A 9 :: labels :: A kind :: _) =>
+      (* lock discipline: a history of calls on one client, replayed by real threads (IO/ClientLocks.v) *)
+      do labels <- as_list_of (fun x =>
+          match x with
+          | L [A 0; A k; A m; T] =>
+              match as_tmo T with
+              | Some T => Some (Start (Z.to_nat k) (if m =? 0 then MSend else if m =? 1 then MRecv else MQuick) T)
+              | None => None
+              end
+          | L [A 1; A k] => Some (Grant (Z.to_nat k))
+          | L [A 2; A k] => Some (GiveUp (Z.to_nat k))
+          | L [A 3; A k; A ok] => Some (Finish (Z.to_nat k) (negb (ok =? 0)))
+          | _ => None
+          end) labels;
+      let '(sf, en) := run_labels cst0 labels in
+      L [L (map of_bool en);
+         L (map (fun c => L [of_nat (c_id c);
+                             match c_ph c with
+                             | PDone code => L [A 0; A (if kind =? 0 then convert_code code else code)]
+                             | PHold => L [A 1]
+                             | PWait _ => L [A 2]
+                             end]) (cs sf));
+         of_bool (is_none (o_send sf)); of_bool (is_none (o_recv sf))]
   | L (A 8 :: A N :: A bufsize :: A ncalls :: T :: stream :: _) =>
       (* real sockets: the whole stream is (eventually) there, then EOF; only outcomes (packet digests) are compared *)
       do T <- as_tmo T; do stream <- as_chunk stream;
